@@ -161,9 +161,30 @@ pub trait PacketTrait: Serialize {
 
     /// Length in bytes used when calling `to_writer_with_header`.
     fn write_len_with_header(&self) -> usize {
-        let mut sum = self.packet_header().write_len();
-        sum += self.write_len();
-        sum
+        let original_header = self.packet_header();
+        let write_len = self.write_len();
+
+        // Must match the header that `to_writer_with_header` writes: for fixed and partial
+        // lengths that is a normalized header for the current body length, not the stored one.
+        let header_len = match original_header.packet_length().maybe_len() {
+            Some(_) => u32::try_from(write_len)
+                .ok()
+                .and_then(|len| {
+                    PacketHeader::from_parts(
+                        original_header.version(),
+                        original_header.tag(),
+                        PacketLength::Fixed(len),
+                    )
+                    .ok()
+                })
+                .map(|header| header.write_len())
+                // `to_writer_with_header` fails in this case
+                .unwrap_or_else(|| original_header.write_len()),
+            // Indeterminate length
+            None => original_header.write_len(),
+        };
+
+        header_len + write_len
     }
 }
 
